@@ -5,7 +5,7 @@ import torch
 
 from vlib import policies
 from vlib.c12impl import strip
-from vlib.taps import PolicyTap
+from vlib.taps import PolicyTap, logit_noise
 
 
 def hook_beam(s, rec):
@@ -44,7 +44,7 @@ def case(ctx, case):
     insts = [O.extract(td_in, td0, b, env) for b in range(B)]
     sig = dict(env=name, select_best=case["select_best"])
     tol = lambda x: 1e-4 * max(1.0, abs(x))
-    with torch.no_grad(), PolicyTap(pol, keep_logits=False, on_strategy=hook_beam) as rec:
+    with torch.no_grad(), PolicyTap(pol, keep_logits=True, on_strategy=hook_beam) as rec:
         try:
             out = pol(td0.clone(), env, phase="test", decode_type="beam_search", beam_width=W, select_best=case["select_best"], return_actions=True, return_sum_log_likelihood=False)
         except Exception as e:
@@ -140,7 +140,7 @@ def case(ctx, case):
             ev = pol(tdr, env, phase="test", actions=beams_a.clone(), return_sum_log_likelihood=False)
         ctx.count("c13_replays", R)
         d = (ev["log_likelihood"][:, 1:].double() - beams_ll[:, 1:].double()).abs()
-        if bool((d > 1e-3).any()):  # unscaled CVRPTW features (times ~1e2) give logit noise of ~2e-4 between batch layouts
+        if bool((d > 1e-4 + logit_noise(rec)).any()):  # conditioning-aware: unscaled CVRPTW logits reach 5e3 (ulp 5e-4)
             r = int(d.max(1).values.argmax())
             ctx.violation(dict(sig, q="beam_logprobs"), f"beam {r}: per-step log-probs returned by beam search differ from those the policy assigns along that very sequence by up to {float(d.max()):.4g} (back-tracking / parent re-indexing)",
                           dict(n=n, B=B, W=W, beam=beams_a[r].tolist(), returned=beams_ll[r].tolist(), replay=ev["log_likelihood"][r].tolist()))
